@@ -282,7 +282,7 @@ pub fn replay(input: &str, output: &str) {
             }
             for (name, text) in faults {
                 evals += 1;
-                let must_err = matches!(name, "missing-joint" | "truncated-xml" | "short-xyz" | "non-numeric-xyz" | "empty" | "not-xml" | "conflicting-duplicate-axis" | "conflicting-duplicate-origin");
+                let must_err = matches!(name, "missing-joint" | "missing-joint-1" | "missing-joint-6" | "truncated-xml" | "short-xyz" | "non-numeric-xyz" | "empty" | "not-xml" | "conflicting-duplicate-axis" | "conflicting-duplicate-origin");
                 match extract(&text, &names) {
                     Got::Panic => out.put(json!({"sig": format!("urdf:faulty-description-panics:{}", name), "detail": format!("{}", &text[..text.len().min(300)])})),
                     Got::Ok(_) if must_err => out.put(json!({"sig": format!("urdf:faulty-description-accepted:{}", name), "detail": format!("{}", &text[..text.len().min(300)])})),
